@@ -32,6 +32,26 @@ def gen_c11(r, n):
                 if pattern == 'dup':
                     sc.append(('F', i, 'g'))
             cases.append((cfg, sc))
+    # a reply that is only partially received when the deadline fires: the remainder arrives late and must be consumed
+    # as the rest of THAT frame; the next request then gets its own reply
+    for _ in range(max(60, n // 20)):
+        cfg = {'cap': r.choice([1, 4, 16]), 'handles': 1, 'mt': r.choice([0, 0, 3]), 'rmin': 20 * MS, 'rmax': 40 * MS}
+        tmo = r.choice([1 * MS, 10 * MS, 1000 * MS, 1500000])
+        sc = cl.connected_prefix(r.choice('fx'))
+        if r.random() < 0.4:
+            sc.append(('T', r.choice([1, 999999, 3 * MS])))
+        sc.append(('S', 0, 'r', tmo, r.choice('fcx')))
+        early = r.random() < 0.5
+        if early:
+            sc.append(('S', 1, 'r', 10 * MS, r.choice('fcx')))
+        sc += [('T', r.choice([1, tmo // 2])), ('P', 0, r.choice('geb')), ('T', tmo + r.choice([0, 1, MS])), ('Q',)]
+        if not early:
+            sc.append(('S', 1, 'r', 10 * MS, r.choice('fcx')))
+        sc.append(('T', r.choice([1, MS])))
+        sc += [('F', 1, r.choice('ggeb'))]
+        if r.random() < 0.5:
+            sc += [('S', 2, 'r', 10 * MS, 'f'), ('F', 2, 'g')]
+        cases.append((cfg, sc))
     while len(cases) < n:
         cfg = cl.default_cfg(r, mt=r.choice([0, 0, 0, 2]), handles=1)
         pre = cl.connected_prefix(r.choice('fx'))
@@ -43,6 +63,17 @@ def gen_c11(r, n):
 
 def run(ctx):
     if not cl.prepare(ctx):
+        return
+    if ctx.replay and 'late_partial' in ctx.replay:
+        line, want = ctx.replay['late_partial'][0], ctx.replay['spec_for_second_request']
+        i = ctx.harness('client', [line])[0]
+        p = cl.parse(cl.canon(i))
+        got = {cid: cls for cid, cls, _ in p['comp']} if p else {}
+        ok = got.get(100) == 'Timeout' and got.get(200, 'Pending') == want and not [t for t in p['task'] if t[0] == 'e']
+        if not ok:
+            ctx.violation('C11.late-remainder-of-a-timed-out-reply-disturbs-the-next-request', f'[{line}] impl={i} spec for request 200: {want}',
+                          {'late_partial': [line], 'impl': i, 'spec_for_second_request': want})
+        ctx.oblige('replay:late-partial', ok, i)
         return
     if ctx.replay and 'bytes_cases' in ctx.replay:
         bytes_family(ctx, 0, ctx.replay['bytes_cases'])
@@ -60,6 +91,9 @@ def run(ctx):
     n_bytes, bytes_classes = (0, {})
     if not ctx.replay:
         n_bytes, bytes_classes = bytes_family(ctx, 1500 if ctx.quick() else 15000)
+        n_late = late_partial_family(ctx, 200 if ctx.quick() else 2000)
+        n_bytes += n_late
+        bytes_classes['bytes:late-partial-then-next-request'] = n_late
     classes = {}
     for c, i in zip(cases, impl):
         for k in cl.classify(c, i):
@@ -193,6 +227,56 @@ def bytes_coq(c):
     return f'{{| y_req := Base.ClientTypes.{req}; y_chunks := {chunks}; y_fin := Base.Frame.{fin} |}}'
 
 
+def late_partial_family(ctx, n):
+    """byte level: reply 0 is half received when the deadline of request 0 fires; its remainder - crafted to look like a
+    complete frame for the NEXT transaction id carrying 0xBEEF - arrives late; then request 1 is sent and answered.
+    Spec for request 1: the first frame with transaction id 1 that the MBAP length fields cut from the WHOLE stream of the
+    connection (Spec ref_client_result evaluated in Coq on the concatenated bytes)."""
+    r = ctx.rng
+    lines, terms, wants = [], [], []
+    for _ in range(n):
+        fake = mbap(1, [3, 2, 0xBE, 0xEF])                                  # 11 bytes that look like a reply to tx 1
+        pad = [r.randrange(256) for _ in range(r.choice([1, 3, 5]))]
+        data0 = pad + fake                                                    # register data of reply 0 (even length)
+        n0 = len(data0) // 2
+        reply0 = mbap(0, [3, len(data0)] + data0)
+        cut = len(reply0) - len(fake) - r.choice([0, 0, 1])                   # usually exactly in front of the fake header
+        val = [r.randrange(256), r.randrange(256)]
+        kind1 = r.choice(['genuine', 'genuine', 'exception', 'silent'])
+        reply1 = mbap(1, [3, 2] + val) if kind1 == 'genuine' else mbap(1, [0x83, 2]) if kind1 == 'exception' else []
+        tmo = r.choice([2, 10, 1000]) * MS
+        hexs = lambda b: ''.join('%02X' % x for x in b)
+        steps = ['E:f', 'CO', f'S:100:h{n0}:{tmo}:f', f'T:{tmo // 2}', 'B:' + hexs(reply0[:cut]), f'T:{tmo}', 'B:' + hexs(reply0[cut:]),
+                 'S:200:h1:1000000000:f']
+        i = 0
+        while i < len(reply1):
+            k = r.randrange(1, 8)
+            steps.append('B:' + hexs(reply1[i:i + k]))
+            i += k
+        lines.append('cap=4 handles=1 mt=0 rmin=20000000 rmax=40000000 | ' + ' '.join(steps))
+        stream = reply0 + reply1
+        terms.append(f'(Base.ClientTypes.RReadHoldingRegisters (200, 1), 1, [{";".join(str(b) for b in stream)}], Base.Frame.FinPending)')
+    impl = ctx.harness('client', lines, shards=4)
+    ctx.build_models(['Spec.SystemClientShow'])
+    spec = ctx.coq_eval(['Spec.SystemClientShow', 'Base.ClientTypes', 'Base.Frame'], 'eval_spec', terms,
+                        case_type='Base.ClientTypes.request * N * list N * Base.Frame.fin')
+    bad = 0
+    for line, i, want in zip(lines, impl, spec):
+        p = cl.parse(cl.canon(i))
+        got = {cid: cls for cid, cls, _ in p['comp']} if p else {}
+        ended = [t for t in (p['task'] if p else []) if t[0] == 'e']
+        r0, r1 = got.get(100), got.get(200, 'Pending')
+        if r0 != 'Timeout' or r1 != want or ended:
+            bad += 1
+            if bad == 1:
+                ctx.violation('C11.late-remainder-of-a-timed-out-reply-disturbs-the-next-request',
+                              f'[{line}]: request 100 must time out and request 200 (tx 1) must see {want} (Spec: first frame with tx 1 in the whole stream), the connection must stay up; '
+                              f'the client reports 100 -> {r0}, 200 -> {r1}, session ends {ended}; impl={i}',
+                              {'late_partial': [line], 'impl': i, 'spec_for_second_request': want})
+    ctx.oblige('correspondence:late-remainder-then-next-request-vs-spec-on-the-whole-stream', bad == 0, f'{bad} of {len(lines)}')
+    return len(lines)
+
+
 def bytes_family(ctx, n, cases=None):
     """the real client fed with byte-level chunked replies vs `client_system` (reader o task o handle_response) and its
     Spec `ref_client_result`, both evaluated in Coq"""
@@ -201,7 +285,14 @@ def bytes_family(ctx, n, cases=None):
     if cl.MODEL_OK and ctx.build_models(['Model.SystemClientEval']):
         both = ctx.coq_eval(['Model.SystemClientEval', 'Base.ClientTypes', 'Base.Frame'], 'eval_syscase', [bytes_coq(c) for c in cases], case_type='syscase', per_shard=200)
     else:
-        both = [None] * len(cases)
+        # the model is unavailable: judge the implementation against the oracle alone
+        ctx.build_models(['Spec.SystemClientShow'])
+        fins = {'P': 'FinPending', 'Z': 'FinEof', 'R': 'FinErr'}
+        only = ctx.coq_eval(['Spec.SystemClientShow', 'Base.ClientTypes', 'Base.Frame'], 'eval_spec',
+                            [f'(Base.ClientTypes.{"RReadCoils" if c["coils"] else "RReadHoldingRegisters"} ({c["start"]}, {c["count"]}), 0, '
+                             f'[{";".join(str(b) for ch in c["chunks"] for b in ch)}], Base.Frame.{fins[c["fin"]]})' for c in cases],
+                            case_type='Base.ClientTypes.request * N * list N * Base.Frame.fin', per_shard=200)
+        both = [x + '|' + x for x in only]
     bad = 0
     classes = {}
     for c, i, b in zip(cases, impl, both):
